@@ -15,6 +15,7 @@
     explained by IDEAL -> held; explained only with a deviation listed as known -> KNOWN-FINDING;
     else VIOLATION."""
 import json, os, random, re, shutil
+from concurrent.futures import ThreadPoolExecutor
 import vp
 
 KF_ALL = ["KF_MerkleDupLastTx", "KF_MerkleTreeUnchecked", "KF_EmptyBlockRejected", "KF_HeaderConcat"]
@@ -47,7 +48,7 @@ def actual_mc(run, kf, timeout=600):
     cfg = re.sub(r"(?m)^(\s*MaxTx\s*=\s*).*$", r"\g<1>3", cfg).replace(" MerkleLemma", "")
     with open(os.path.join(d, "A.cfg"), "w") as f:
         f.write(cfg)
-    rc, out, dt = run._tlc(d, ["-workers", "8", "-config", "A.cfg", "-dumpTrace", "json", "ce.json", "BlockId.tla"], timeout)
+    rc, out, dt = run._tlc(d, ["-workers", "2", "-config", "A.cfg", "-dumpTrace", "json", "ce.json", "BlockId.tla"], timeout)
     m = re.search(r"Error: Invariant (\w+) is violated", out)
     ce = os.path.join(d, "ce.json")
     if not m or not os.path.exists(ce):
@@ -134,7 +135,7 @@ def replay_validate(run, schema, behs, kf_consts, kf_desc, name, stats):
         tr, ev.get("i"), div.get("op"), json.dumps({k: v for k, v in (case[-1] if case else {}).items() if k in ("p", "m", "st")}, sort_keys=True),
         "verdicts [v=Ledger.VerifyBlock s=single.CheckMinerMatch w=pow.CheckMinerMatch]" if div.get("op") == "verify" else "public primitives",
         json.dumps(exp, sort_keys=True), json.dumps(act, sort_keys=True))
-    run.violation(what, {"property": "C08", "driver": "c08 replay", "schema": schema, "known_deviations_enabled": sorted(kf_consts),
+    run.violation(what, {"property": "C08", "driver": "c08 replay", "seed": run.seed, "tier": run.tier, "schema": schema, "known_deviations_enabled": sorted(kf_consts),
                          "program": [{k: v for k, v in e.items() if k in ("op", "p", "m", "st")} for e in case],
                          "first_unexplained_event": ev, "expected": exp, "actual": act})
     os.remove(trace)
@@ -148,10 +149,14 @@ def check(run):
     kf_consts = {k: "TRUE" for k in known}
     run.build_harness("c08")
 
+    # (1b) every known deviation is a real deviation of the model: TLC finds the structural counterexample
+    #      (small JVMs, run beside the main model check)
+    pool = ThreadPoolExecutor(max_workers=4)
+    futs = [pool.submit(actual_mc, run, kf) for kf in KF_ALL if kf in known]
     # (1) the design: IDEAL holds all property invariants
     run.tlc_mc("BlockId.tla", "MC_BlockId.cfg" if quick else "MC_BlockId_thorough.cfg", timeout=780)
-    # (1b) every known deviation is a real deviation of the model: TLC finds the structural counterexample
-    run.cov["tlc_counterexamples_on_actual"] = [actual_mc(run, kf) for kf in KF_ALL if kf in known]
+    run.cov["tlc_counterexamples_on_actual"] = [f.result() for f in futs]
+    pool.shutdown()
     # minimal reproductions on the real code (plain facts; evidence)
     try:
         run.cov["real_code_reproductions"] = json.loads(run.harness(["repro"]))
@@ -162,6 +167,7 @@ def check(run):
     if run.replay:
         rp = json.load(open(run.replay))
         schema = rp["schema"]
+        run.seed = rp.get("seed", run.seed)       # the concretisation of the recorded run
         cases, total = [[{k: v for k, v in e.items() if k in ("op", "p", "m", "st")} for e in rp["program"]]], 0
     else:
         consts = {} if quick else {"RepTx": 3, "Full": "TRUE", "Rich": "TRUE"}
@@ -169,7 +175,7 @@ def check(run):
         if not behs or behs[0][0].get("op") != "schema":
             raise vp.Undecided("generation did not produce the schema behaviour")
         schema = behs[0]
-        cases, total = chunks(behs, 400, rnd, None if quick else 240000)
+        cases, total = chunks(behs, 400, rnd, None)   # every enumerated case is concretised (a limit would sample chunks)
     run.cov["cases_enumerated"] = total
 
     # (3) + (4) concretise on the real code, validate with TLC
@@ -194,10 +200,11 @@ def check(run):
     if untouched:
         raise vp.Undecided("fields of the specification's table no enumerated mutation touched on the real protobuf: %s" % untouched)
     by = stats.get("by_kind", {})
-    req = {"blocks_formatted": (stats.get("formatted", 0), 20), "accepted_unmutated": (stats.get("base_accepted", 0), 15),
-           "mutations": (stats.get("cases", 0), 15000), "rejected": (stats.get("rejected", 0), 5000),
-           "accepted_mutated_or_reformatted": (stats.get("accepted", 0), 1000),
-           "single_accepted": (stats.get("single_ok", 0), 500), "pow_accepted": (stats.get("pow_ok", 0), 200),
+    m = 1 if quick else 12
+    req = {"blocks_formatted": (stats.get("formatted", 0), 14), "accepted_unmutated": (stats.get("base_accepted", 0), 12),
+           "mutations": (stats.get("cases", 0), 8000 * m), "rejected": (stats.get("rejected", 0), 4000 * m),
+           "accepted_mutated_or_reformatted": (stats.get("accepted", 0), 1000 * m),
+           "single_accepted": (stats.get("single_ok", 0), 500 * m), "pow_accepted": (stats.get("pow_ok", 0), 200 * m),
            "schema_fields_touched": (len([1 for f in schema[0]["fields"] if touched.get(f["name"])]), len(schema[0]["fields"]))}
     for kd in KINDS:
         req["mut_" + kd] = (by.get(kd, 0), 8)
